@@ -29,6 +29,12 @@ R = {
  "C08-2": (False, "ProtocolSet::report_connection_closed (order of notifying protocols vs manager) is an async fn over channels: the cross-component ordering is not_decided for C08"),
  "C13-1": (False, "RequestResponseProtocol::on_connection_established is an async fn (Verus has no async; Kani cannot compile the tokio types): everything after acceptance is not_decided for C13"),
  "C13-2": (False, "RequestResponseProtocol::on_inbound_substream (inbound concurrency bound) is an async fn: not_decided for C13"),
+ "C02-3": (True, "noise_read::NoiseSocket::reset_read_state (Verus): frame clause `current_frame_size` unchanged (a remembered frame length must survive the buffer reset) — second, focused seeding round on functions under contract"),
+ "C02-4": (False, "NoiseSocket::poll_read rejects valid frames above MAX_FRAME_LEN with an error: the read-path contract constrains what is delivered (never altered plaintext, state invariant) and allows an error return at any time; 'a well-formed stream is never refused' needs the cause of an error, which no postcondition over this function's state can express (the parsed length is not retained) — listed under not_decided for C02"),
+ "C03-3": (True, "msdialer::WebRtcDialerState::propose and ::propose_next_fallback (Verus): the names still to be proposed, most preferred first, are exactly the rest of the given list"),
+ "C03-4": (True, "mslistener::webrtc_listener_negotiate (Verus): the confirmation echoes the proposed name with the header iff the header arrived in this payload"),
+ "C20-3": (True, "bitswap_batch::extract_next_batch (Verus): every block of the returned batch is <= max_batch_size, for every queue (the seed returns a lone oversized block)"),
+ "C20-4": (True, "bitswap_block::block_to_response (Verus): the cid's multihash is the FULL digest of exactly the data, whatever length the prefix announces"),
  "C20-2": (False, "config constant MAX_BATCH_SIZE: the relation between batch size and the protobuf-encoded message size (send_response, async) is not_decided for C20"),
 }
 for k, (det, why) in R.items():
